@@ -947,6 +947,26 @@ Case generate(vf::Src& src, const std::string& mode)
         gen_c14(src, c);
     else
         throw std::runtime_error("unknown mode " + mode);
+    // The statements hold for every parse() on a parser object, not only the first one: in a
+    // third of the cases an unrelated command line is parsed on the same object beforehand
+    // (its outcome is ignored), then the case proper.
+    if ((mode == "c01" || mode == "c03" || mode == "c11" || mode == "c12") && src.coin(30))
+    {
+        Step warm = blank_step(c);
+        int k = src.irange(0, 4);
+        for (int i = 0; i < k; ++i)
+        {
+            if (src.coin(20))
+                warm.argv.push_back("--");
+            else
+                gen_related_tokens(src, c, warm.argv, true);
+        }
+        if (src.coin(30))
+            warm = c.steps[0]; // or the very same command line twice
+        else
+            gen_env(src, c, warm, 30);
+        c.steps.insert(c.steps.begin(), warm);
+    }
     return c;
 }
 
@@ -1107,7 +1127,14 @@ std::string check(const Case& c0, vf::Ctx& ctx)
         return "";
     }
 
-    const Step& st = c.steps[0];
+    // earlier steps are warm-up parses on the same object; their outcome is ignored
+    for (std::size_t k = 0; k + 1 < c.steps.size(); ++k)
+    {
+        ctx.tag("warmup-parse");
+        (void)om::real_parse(*parser, c, c.steps[k]);
+    }
+    const Step& st = c.steps.back();
+    om::clear_env();
     om::Outcome model = om::model_parse(c, st);
     if (!c.via_argv)
     {
